@@ -198,5 +198,5 @@ def run(ck, F):
         ck.undecided("R4", "lookup", fb["span"], "no base lookup found")
     # the lookup itself must select by namespace (shared with C09.R3): a base of another namespace with the same local name
     # must not be confused with a local one
-    sub = C04._Sub(ck, "R4", lambda key: key.startswith(("registry-lookup", "xml-lookup")), only_rules=("R3",))
+    sub = C04._Sub(ck, "R4", lambda key: key.startswith(("registry-lookup", "xml-lookup", "global-components-only")), only_rules=("R3",))
     C09.run(sub, F)
